@@ -188,3 +188,84 @@ func ScanOracle(w *World, _ []Op) []Fail {
 	}
 	return fs
 }
+
+// ScanUnderChurnOracle: a cursor scan (COUNT=1, the finest paging) during which ONE operation of
+// the alphabet is applied between two cursor calls - at every position of the scan, for every
+// operation. A key that is present before the scan starts and is still present when it ends
+// (whether or not its value was overwritten or its entry moved by compaction meanwhile) must be
+// yielded at least once; a key that was absent before the scan and is never written during it
+// must not be yielded; the scan must terminate.
+func ScanUnderChurnOracle(w *World, path []Op) []Fail {
+	var fs []Fail
+	seen := map[string]bool{}
+	add := func(k, f string, a ...interface{}) {
+		if !seen[k] {
+			seen[k] = true
+			fs = append(fs, Fail{k, fmt.Sprintf(f, a...)})
+		}
+	}
+	// number of cursor calls of the undisturbed scan
+	calls0 := 0
+	{
+		var cursor uint64
+		for calls0 < 64 {
+			calls0++
+			c, err := w.St.Scan(cursor, 1, func(storage.Entry) bool { return true })
+			if err != nil || c == 0 {
+				break
+			}
+			cursor = c
+		}
+	}
+	for pos := 1; pos <= calls0; pos++ { // the operation lands after the pos-th cursor call
+		for _, op := range w.Cfg.Alphabet() {
+			if op.K == OpTransfer {
+				continue // a transfer drops tables wholesale: the keys are not present any more
+			}
+			x := Build(w.Cfg, path)
+			before := map[string]bool{}
+			for _, m := range x.Model {
+				before[m.Key] = true
+			}
+			stats := x.St.Stats()
+			bound := 2*(stats.Length+stats.NumTables) + 16 + stats.Garbage/30
+			got := map[string]int{}
+			var cursor uint64
+			calls := 0
+			for {
+				calls++
+				if calls > bound {
+					add("scan-under-churn/not-terminating", "scan COUNT=1 with %s applied after call %d still running after %d calls", op, pos, bound)
+					break
+				}
+				c, err := x.St.Scan(cursor, 1, func(e storage.Entry) bool { got[e.Key()]++; return true })
+				if err != nil {
+					add("scan-under-churn/error", "scan COUNT=1 with %s applied after call %d: %v", op, pos, err)
+					break
+				}
+				cursor = c
+				if calls == pos {
+					x.Apply(op)
+				}
+				if cursor == 0 {
+					break
+				}
+			}
+			after := map[string]bool{}
+			for _, m := range x.Model {
+				after[m.Key] = true
+			}
+			for k := range before {
+				if after[k] && got[k] == 0 {
+					add("scan-under-churn/stable-key-missed/op="+opNames[op.K], "scan COUNT=1 with %s applied after cursor call %d of %d misses key %q, which was present before the scan and still is (layout before: %s)", op, pos, calls0, k, Layout(w.St))
+				}
+			}
+			for k := range got {
+				if !before[k] && !after[k] {
+					add("scan-under-churn/ghost", "scan COUNT=1 with %s applied after cursor call %d yields %q, which was never present", op, pos, k)
+				}
+			}
+		}
+	}
+	return fs
+}
